@@ -153,7 +153,7 @@ def parse_output(text, job) -> KaniResult:
 
     def matches(c, pats):
         for d, f in pats:
-            if d in c.description and f in (c.function + " " + c.location):
+            if pat_match(c, d, f):
                 return True
         return False
 
@@ -218,7 +218,7 @@ def parse_output(text, job) -> KaniResult:
         return r
     # expected clean panics must be reached
     for d, f in job.expect_fail:
-        if not any(d in c.description and f in (c.function + " " + c.location) for c in r.expected_hit):
+        if not any(pat_match(c, d, f) for c in r.expected_hit):
             r.verdict = "violation"
             r.reason = "expected clean panic not raised: %s in %s" % (d, f)
             return r
@@ -239,6 +239,18 @@ def parse_output(text, job) -> KaniResult:
             return r
     r.verdict = "holds"
     return r
+
+
+def pat_match(c, d, f):
+    """(description substring, function substring); a description of the form "d1@f1||d2@f2" lists ALTERNATIVES
+    (the same documented panic raised in another way), any one of which matches."""
+    if "||" in d:
+        for alt in d.split("||"):
+            dd, _, ff = alt.partition("@")
+            if dd in c.description and ff in (c.function + " " + c.location):
+                return True
+        return False
+    return d in c.description and f in (c.function + " " + c.location)
 
 
 def kani_command(job: Job, target_dir: str, playback: bool = False):
